@@ -24,7 +24,9 @@ class LockFile:
         except FileExistsError:
             self.fd = os.open(self.filename, os.O_RDWR | os.O_CLOEXEC)
         else:
-            os.write(self.fd, bytes(maximum - minimum))
+            # others may already have opened the file and even use it, so
+            # do not overwrite anything
+            os.ftruncate(self.fd, maximum - minimum)
 
     def close(self):
         os.close(self.fd)
@@ -77,7 +79,8 @@ class ParallelMailboxLock:
                 await sleep(0)
                 continue
             break
-        self.counter, = os.pread(self.lock_file.fd, 1, self.no)
+        # the creator of the lock file may not have sized it yet
+        self.counter, = os.pread(self.lock_file.fd, 1, self.no) or b"\0"
 
     async def __aexit__(self, a, b, c):
         os.pwrite(self.lock_file.fd, bytes((self.counter,)), self.no)
